@@ -198,6 +198,9 @@ def decide(prop, mod, tier, seed, m, dead, wall, quiet=False):
         incon.append('%d harness errors, first: %s' % (len(m['case_errors']), m['case_errors'][0]['trace'][-400:]))
     if m['done'] < m['ncases_total']:
         incon.append('only %d of %d cases ran' % (m['done'], m['ncases_total']))
+    for t, cnt in sorted(m['tags'].get(prop, {}).items()):
+        if t.startswith('INCONCLUSIVE:'):      # a workload could not apply its deciding monitor to some execution
+            incon.append('%s (x%d)' % (t[len('INCONCLUSIVE:'):], cnt))
     distinct = len(m['nontrivial'].get(prop, ()))
     if not viol_groups and distinct < 2:
         incon.append('fewer than 2 distinct non-trivial cases observed')
